@@ -72,12 +72,16 @@ def execute_record(prop, record):
     try:
         signal.signal(signal.SIGALRM, _alarm)
         signal.setitimer(signal.ITIMER_REAL, RUN_TIMEOUT)
+        import io
+        old_stdout = sys.stdout
+        sys.stdout = io.StringIO()     # verbose=True estimators print progress
         try:
             if hasattr(mod, "execute_for"):
                 res = mod.execute_for(prop, record)
             else:
                 res = mod.execute(record)
         finally:
+            sys.stdout = old_stdout
             signal.setitimer(signal.ITIMER_REAL, 0)
     except RunTimeout:
         res = Result()
@@ -108,6 +112,12 @@ def generate_record(prop, verif_seed, index):
 def _sig_hash(sig):
     import hashlib
     return hashlib.blake2b(sig.encode(), digest_size=8).digest()
+
+
+def _init_worker():
+    # the clean room must be forked before this worker executes anything (see cleanroom.py)
+    from . import cleanroom
+    cleanroom.install()
 
 
 def _worker(args):
@@ -181,7 +191,7 @@ def run_check(prop, tier, verif_seed, runs=None, workers=None, shrink=True, quie
     harness_errors = []
     truncated = False
     ctx = mp.get_context("fork")
-    with cf.ProcessPoolExecutor(max_workers=workers, mp_context=ctx) as ex:
+    with cf.ProcessPoolExecutor(max_workers=workers, mp_context=ctx, initializer=_init_worker) as ex:
         futs = {ex.submit(_worker, t): t for t in tasks}
         try:
             for f in cf.as_completed(futs, timeout=wall):
@@ -255,8 +265,12 @@ def run_check(prop, tier, verif_seed, runs=None, workers=None, shrink=True, quie
         res_i = execute_record(prop, generate_record(prop, verif_seed, i))
         det["runs_rechecked"] += 1
         if res_i.digest != first_digests[i]:
+            # Reported, not fatal: on the unchanged tree the simulation is deterministic (self-tests); a difference that
+            # appears on a changed tree means the LIBRARY carries state from one run to the next.  C12's clean-room
+            # reference is the oracle that decides that; the other checks must not turn it into an alarm of their own.
             det["identical"] = False
-            harness_errors.append(f"nondeterministic simulation: run {i} digest {first_digests[i]} in a worker, {res_i.digest} when re-executed")
+            det["first_mismatch"] = {"run": i, "worker": first_digests[i], "re_executed": res_i.digest}
+            print(f"DETERMINISM-WARNING run {i}: event digest differs between the worker process and a re-execution")
             break
 
     violations_out = []
